@@ -311,7 +311,14 @@ static void setterProbe(Rng &rng, CaseResult &r, uint64_t idx) {
       case 8: c.setSolution(PlacementSolution(len)); break;
       case 9: c.setNetWeights(std::vector<float>((size_t)std::max(0, c.nbNets() + (lenMode == 0 ? (c.nbNets() == 0 ? 1 : -1) : lenMode == 1 ? 1 : (c.nbNets() == 0 ? 2 : -c.nbNets()))), 1.0f)); break;
       case 10: c.expandCellsByFactor(std::vector<float>(len, 1.5f)); break;
-      case 11: c.meanDisruption(PlacementSolution(len), c.solution(), LegalizationModel::L1); break;
+      case 11: {
+        // mean / rms / max displacement between two solutions: the wrong length in the first, the second or both arguments
+        int which = (int)rng.range(0, 2), where = (int)rng.range(0, 2);
+        PlacementSolution a = where == 1 ? c.solution() : PlacementSolution(len), b = where == 0 ? c.solution() : PlacementSolution(len);
+        LegalizationModel lm = (LegalizationModel)rng.range(0, 5);
+        if (which == 0) (void)c.meanDisruption(a, b, lm); else if (which == 1) (void)c.rmsDisruption(a, b, lm); else (void)c.maxDisruption(a, b, lm);
+        break;
+      }
     }
   } catch (const std::exception &) {
     threw = true;
